@@ -1241,7 +1241,7 @@ impl std::ops::Add<i32> for Length {
         match self.0 {
             UNDEFINED_LEN => Length::UNDEFINED,
             len => {
-                let o = (len as i32 + rhs) as u32;
+                let o = (len as i64 + rhs as i64) as u32;
                 debug_assert!(
                     o != UNDEFINED_LEN,
                     "integer overflow (0xFFFF_FFFF reserved for undefined length)"
